@@ -227,9 +227,9 @@ Theorem executed_gram_inverse : forall (lam : bigQ) (n : nat) (vs : seq (seq big
 Proof. exact Exec.executed_gram_inverse. Qed.
 Print Assumptions executed_gram_inverse.
 
-Theorem executed_agent_sigma : forall (lam : bigQ) (ly : layer) (ops : seq (@op bigQ)),
+Theorem executed_agent_sigma : forall (rr : bool) (lam : bigQ) (ly : layer) (ops : seq (@op bigQ)),
   List.forallb no_resize ops = true ->
-  sig (List.fold_left Bstep ops (Binit lam ly)) =
+  sig (List.fold_left (Bstep rr) ops (Binit lam ly)) =
   sigma_run B0 B1 BigQ.add_norm BigQ.sub_norm BigQ.mul_norm BigQ.div_norm lam (segment ly ops).1 (segment ly ops).2.
 Proof. exact Exec.executed_agent_sigma. Qed.
 Print Assumptions executed_agent_sigma.
